@@ -402,6 +402,14 @@ class SymSeq(SymBase):
     def __init__(self, items):
         self.items = list(items)
 
+    def concretize(self, per_item_limit=16):
+        """A real bytes / str holding one feasible value of this sequence on this path (forks over the feasible values of
+        each symbolic item in turn; an item with more than per_item_limit values is 'unsupported')."""
+        out = []
+        for it in self.items:
+            out.append(it if isinstance(it, int) else core.cur().enumerate_values(it, per_item_limit))
+        return bytes(out) if self.kind == "bytes" else "".join(chr(c) for c in out)
+
     # -- helpers
     def _same(self, other):
         return seq_kind(other) == self.kind
